@@ -159,7 +159,7 @@ func progressReturns(fn *ssa.Function, positiveOnly bool) []ssa.Instruction {
 		if len(r.Results) != 1 {
 			continue
 		}
-		if progressIsNegative(r.Results[0]) != positiveOnly {
+		if progressIsNegative(ir.RetVal(r, 0)) != positiveOnly {
 			out = append(out, in)
 		}
 	}
@@ -220,4 +220,79 @@ func globalIsZeroProgress(g *ssa.Global) bool {
 		}
 	})
 	return okv
+}
+
+// refersTo selects instructions that use one of the given functions/methods
+// as a value (method value, function value passed or stored), not as the
+// callee of a direct call. Bound-method wrappers resolve to their method.
+func refersTo(objs ...*types.Func) Sel {
+	match := func(v ssa.Value) bool {
+		var fn *ssa.Function
+		switch x := v.(type) {
+		case *ssa.Function:
+			fn = x
+		case *ssa.MakeClosure:
+			fn, _ = x.Fn.(*ssa.Function)
+		}
+		if fn == nil {
+			return false
+		}
+		if o := fn.Origin(); o != nil {
+			fn = o
+		}
+		f, ok := fn.Object().(*types.Func)
+		if !ok {
+			return false
+		}
+		for _, o := range objs {
+			if ir.SameFunc(f, o) || ir.Implements(f, o) {
+				return true
+			}
+		}
+		return false
+	}
+	return func(in ssa.Instruction) bool {
+		if mc, ok := in.(*ssa.MakeClosure); ok {
+			return match(mc)
+		}
+		var ops []*ssa.Value
+		ops = in.Operands(ops)
+		cc := ir.CallOf(in)
+		for _, op := range ops {
+			if *op == nil {
+				continue
+			}
+			if cc != nil && *op == cc.Value {
+				continue
+			}
+			if _, isMC := (*op).(*ssa.MakeClosure); isMC {
+				continue // counted at the MakeClosure itself
+			}
+			if match(*op) {
+				return true
+			}
+		}
+		return false
+	}
+}
+
+// returnsDerive checks that result #idx of every return of fn is nil or
+// satisfies one of the source predicates; it returns the offending returns.
+func returnsDerive(fn *ssa.Function, idx int, src func(ssa.Value) bool) (bad, good []ssa.Instruction) {
+	for _, in := range find(fn, isExit) {
+		r := in.(*ssa.Return)
+		if idx >= len(r.Results) {
+			continue
+		}
+		v := ir.RetVal(r, idx)
+		if ir.IsNil(v) {
+			continue
+		}
+		if ir.DerivesFrom(v, src) {
+			good = append(good, in)
+		} else {
+			bad = append(bad, in)
+		}
+	}
+	return
 }
